@@ -2,6 +2,7 @@ import AvroModel
 import AvroProofs.C16
 import AvroProofs.Lemmas.SpecDecode
 import AvroProofs.Lemmas.RecordOrder
+import AvroProofs.Lemmas.Prim
 /-!
 What the schema-aware serializer writes is a specification-legal datum (`Spec.SpecEnc`), for every target block
 size: helper definitions and lemmas for `Avro.C16.ser_is_spec_datum`.
@@ -21,8 +22,8 @@ def keyOf : SerdeVal → Bytes
   | .char u => u
   | _ => []
 
-/-- the schemas a byte string is written to as itself (the logical types with extra structure - uuid, big-decimal,
-duration - are left out) -/
+/-- the schemas an arbitrary byte string is written to as itself (`uuid` and `duration` targets have their own rules
+with the length the logical type requires; big-decimal is left out) -/
 def bytesTarget : Schema → Bool
   | .bytes | .fixed _ _ | .decimal _ _ _ => true
   | _ => false
@@ -43,6 +44,19 @@ inductive SerOk (cfg : Cfg) (env : Names) : Schema → SerdeVal → Prop
       SerOk cfg env s0 (.str u)
   | bytes {s0 s : Schema} {b : Bytes} : derefS env s0 = some s → bytesTarget s = true → b.length ≤ cfg.lim →
       SerOk cfg env s0 (.bytes b)
+  /-- a uuid handed over as its 16 raw bytes, to `uuid` on `bytes` or on `fixed(16)` -/
+  | bytesUuid {s0 s : Schema} {b : Bytes} : derefS env s0 = some s → (s = .uuidBytes ∨ ∃ nm, s = .uuidFixed nm 16) →
+      b.length = 16 → 16 ≤ cfg.lim → SerOk cfg env s0 (.bytes b)
+  /-- a duration handed over as its 12 bytes -/
+  | bytesDuration {s0 : Schema} {nm b : Bytes} : derefS env s0 = some (.duration nm 12) → b.length = 12 →
+      SerOk cfg env s0 (.bytes b)
+  /-- a big-decimal handed over in its serialized form: length-prefixed two's-complement unscaled value, then the scale -/
+  | bytesBigDecimal {s0 : Schema} {u sc : Int} : derefS env s0 = some .bigDecimal → i64ok sc →
+      (Spec.long (toSignedBE u).length ++ toSignedBE u ++ Spec.long sc).length ≤ cfg.lim →
+      SerOk cfg env s0 (.bytes (Spec.long (toSignedBE u).length ++ toSignedBE u ++ Spec.long sc))
+  /-- a uuid handed over in its canonical text form, to `uuid` on `string` -/
+  | strUuid {s0 : Schema} {u b : Bytes} : derefS env s0 = some .uuidString → b.length = 16 → u = uuidToText b →
+      36 ≤ cfg.lim → SerOk cfg env s0 (.str u)
   | none {s0 : Schema} : SerOk cfg env s0 .none
   | unit {s0 : Schema} : SerOk cfg env s0 .unit
   | unitStruct {s0 : Schema} {name : Bytes} : SerOk cfg env s0 (.unitStruct name)
@@ -679,6 +693,68 @@ theorem ser_spec (henv : EnvOk env) (hl : cfg.lim < 2^63) (tbs : Option Nat) :
               have hsz : sz = bb.length := by simpa using hsz
               subst hsz
               rw [← h.1]; exact ⟨.decimal (fromSignedBE bb) bb.length, .decimalFixed rfl hlen⟩
+      | bytesUuid hs hor h16 hlim =>
+        rename_i s' bb
+        rw [hd] at hs
+        simp only [Option.some.injEq] at hs
+        subst hs
+        rcases hor with rfl | ⟨nm, rfl⟩
+        · simp [serS, hd, withLen] at h
+          rw [← h.1, h16]
+          have := SpecEnc.uuidBytes (cfg := cfg) (env := env) h16 hlim
+          rw [← long_nat 16 (by decide)]
+          exact ⟨.uuid bb, by simpa using this⟩
+        · simp [serS, hd, h16] at h
+          rw [← h.1]; exact ⟨.uuid bb, .uuidFixed h16 hlim⟩
+      | bytesDuration hs h12 =>
+        rename_i nm bb
+        rw [hd] at hs
+        simp only [Option.some.injEq] at hs
+        subst hs
+        simp [serS, hd, h12] at h
+        rw [← h.1]
+        refine ⟨.duration (ofLeBytes (bb.take 4)) (ofLeBytes ((bb.drop 4).take 4)) (ofLeBytes (bb.drop 8)), ?_⟩
+        have l1 : (bb.take 4).length = 4 := by simp [h12]
+        have l2 : ((bb.drop 4).take 4).length = 4 := by simp [h12]
+        have l3 : (bb.drop 8).length = 4 := by simp [h12]
+        have b1 := ofLeBytes_lt (bb.take 4)
+        have b2 := ofLeBytes_lt ((bb.drop 4).take 4)
+        have b3 := ofLeBytes_lt (bb.drop 8)
+        rw [l1] at b1; rw [l2] at b2; rw [l3] at b3
+        have := SpecEnc.duration (cfg := cfg) (env := env) (name := nm) (mo := ofLeBytes (bb.take 4))
+          (d := ofLeBytes ((bb.drop 4).take 4)) (ms := ofLeBytes (bb.drop 8)) (by omega) (by omega) (by omega)
+        have e1 := leBytes_ofLeBytes (bb.take 4)
+        have e2 := leBytes_ofLeBytes ((bb.drop 4).take 4)
+        have e3 := leBytes_ofLeBytes (bb.drop 8)
+        rw [l1] at e1; rw [l2] at e2; rw [l3] at e3
+        rw [e1, e2, e3] at this
+        have hsplit : bb.take 4 ++ (bb.drop 4).take 4 ++ bb.drop 8 = bb := by
+          have h48 : bb.drop 8 = (bb.drop 4).drop 4 := by simp
+          rw [h48, List.append_assoc, List.take_append_drop, List.take_append_drop]
+        rw [hsplit] at this
+        exact this
+      | bytesBigDecimal hs hsc hlen =>
+        rename_i u sc
+        rw [hd] at hs
+        simp only [Option.some.injEq] at hs
+        subst hs
+        simp only [serS, hd, withLen, Except.ok.injEq, Prod.mk.injEq] at h
+        rw [← h.1]
+        have := SpecEnc.bigDecimal (cfg := cfg) (env := env) (u := u) (sc := sc) (primFacts.fromSignedBE_toSignedBE u) hsc hlen
+        rw [← long_nat _ (by omega)]
+        exact ⟨.bigDecimal u sc, this⟩
+      | strUuid hs h16 hu hlim =>
+        rename_i u bb
+        rw [hd] at hs
+        simp only [Option.some.injEq] at hs
+        subst hs
+        subst hu
+        simp [serS, hd, withLen] at h
+        obtain ⟨_, _, h36⟩ := uuid_text bb h16
+        rw [← h.1, h36]
+        have := SpecEnc.uuidString (cfg := cfg) (env := env) h16 hlim
+        rw [← long_nat 36 (by decide)]
+        exact ⟨.uuid bb, by simpa using this⟩
       | none =>
         simp only [serS, hd] at h
         cases s <;> simp at h
